@@ -708,8 +708,45 @@ def _yl(labels):
     return list(np.array(list(labels)))
 
 
+def _fields(line):
+    d = {}
+    for tok in line.split(" "):
+        if "=" not in tok:
+            return None
+        k, v = tok.split("=", 1)
+        d[k] = v
+    return d
+
+
 def compare(real, model):
-    return fuzzy_equal(real, model, 2e-6 if real.startswith("feat=") else 1e-9)
+    """exact labels / shapes / error kinds; numbers within 1e-9 (float32 features: 2e-6).  The model computes in
+    exact arithmetic: where two classes' probabilities differ by less than float rounding (1e-12) the real arg-max and the
+    exact arg-max may pick different ones of them - accepted as agreement (DESIGN 4.2: no statement about rounding)."""
+    tol = 2e-6 if real.startswith("feat=") else 1e-9
+    if fuzzy_equal(real, model, tol):
+        return True
+    r, m = _fields(real), _fields(model)
+    if r is None or m is None or set(r) != set(m) or "pred" not in r or "proba" not in r or "classes" not in r:
+        return False
+    for k in r:
+        if k not in ("pred", "score") and not fuzzy_equal(r[k], m[k], tol):
+            return False
+    if r["pred"].startswith("E:") or m["pred"].startswith("E:") or r["proba"].startswith("E:"):
+        return False
+    classes = r["classes"].split(",")
+    rp, mp = r["pred"].split(","), m["pred"].split(",")
+    rows = r["proba"].split(";")
+    if len(rp) != len(mp) or len(rows) != len(rp):
+        return False
+    for a, b, row in zip(rp, mp, rows):
+        if a == b:
+            continue
+        if a not in classes or b not in classes or "nan" in row:
+            return False
+        vals = [float(Fraction(x)) for x in row.split(",")]
+        if abs(vals[classes.index(a)] - vals[classes.index(b)]) > 1e-12:
+            return False
+    return rp != mp or fuzzy_equal(r.get("score", ""), m.get("score", ""), tol)
 
 
 # ----------------------------------------------------------------------------- oracle (the property text on the real observation)
